@@ -174,6 +174,61 @@ theorem sampler_exactly_once_under_preemption {α : Type} (cap : Nat) (es : List
   have h := srun_content cap es (SState.init α) ⟨rfl, rfl, [], rfl⟩
   simpa [SState.content, SState.init] using h
 
+/-! ## the feedback path: runner result → `execute_single` → `UnitAwareScheduler` → due time of the next request -/
+
+/-- **reported_failure_keeps_weight.**  With on-error=continue a failure the runner *reports* in its result
+    (`{"success": False, "weight": w, "unit": u}`) is handed on with the reported weight and unit (default 1 "ops"): it feeds
+    the scheduler like a success; only *raised* errors count 0 ops. -/
+theorem reported_failure_keeps_weight (w : Option Nat) (u : Option Str) (s : Option Bool) (tp : Option Rat) (et : Option Str) :
+    executeSingle false (.dict w u s tp et) = .ret (w.getD 1) (u.getD opsUnit) ⟨s.getD true, et, none, tp⟩ := by
+  cases s with
+  | none => rfl
+  | some b => cases b <;> rfl
+
+/-- **ops_target_other_unit_due_times.**  Target throughput `T` given in ops/s (a plain number, `target-interval`, or
+    "… ops/s"), deterministic schedule, `C` clients, and a runner that reports in another unit (docs, pages, …): after EVERY
+    response with a positive weight — the first, the second, the hundredth, whatever the weights are and however they change —
+    the next request of the client is due exactly `C / T` seconds after the previous one (one *request* per slot: the weight
+    is normalised to 1 each time); until such a response has been seen everything is due at 0. -/
+theorem ops_target_other_unit_due_times (R : Run) (tp : Throughput)
+    (htp : targetThroughput R.c.r R.tt R.ti = .ok (some tp)) (hu : tp.unit = opsPerS)
+    (hdet : R.t.sched = none ∨ R.t.sched = some detName) (hother : ∀ q ∈ R.reqs, OtherUnit R.c tp q) :
+    Adj (fun a b =>
+      (0 < a.sample.ops → b.tup.sched = a.tup.sched + (R.c.clients : Rat) / tp.value) ∧
+      (a.innerAfter = .unthrottled → b.tup.sched = 0)) R.f.out.recs := by
+  have hr := R.exact
+  obtain ⟨tp', sched, htp', hs, _, _, hout, _⟩ := R.inv
+  rw [htp] at htp'
+  injection htp' with htp'
+  subst htp'
+  have hsched : sched = .unitAware .deterministic tp true none .unthrottled := by
+    rcases schedulerFor_ok hs with h | ⟨kind, t, ht, h, hk⟩
+    · exfalso
+      unfold schedulerFor at hs
+      simp [runUnthrottled] at hs
+      rcases hdet with hd | hd <;> simp [hd] at hs <;> rw [h] at hs <;> cases hs
+    · injection ht with ht
+      subst ht
+      have : kind = .deterministic := hk.mpr (by rcases hdet with hd | hd <;> simp [hd])
+      rw [h, this]
+  have hI0 : FbInv tp R.c.clients (R.st0 sched) := ⟨true, none, .unthrottled, by simp [Run.st0, hsched], Or.inl ⟨rfl, rfl, rfl⟩⟩
+  rw [hout]
+  refine go_recs_adj (c := R.c) (FbInv tp R.c.clients) (OtherUnit R.c tp) _ ?_ ?_ R.reqs _ hI0 hother
+  · intro st q rec st' hI hq hs
+    exact (fbInv_step hr hu hI hq hs).1
+  · intro st q rec st' q' rec' st'' hI hq _ _ hs _ _ hs'
+    have ⟨_, hin, hval⟩ := fbInv_step hr hu hI hq hs
+    obtain ⟨ops', unit', m', sched'', _, _, _, hrec', _⟩ := step_sampled_inv hs'
+    obtain ⟨ops, unit, m, sched', _, _, _, hrec, hst'⟩ := step_sampled_inv hs
+    have hnext : st'.nextSched = rec.tup.sched := by rw [hst', hrec]; rfl
+    have hb : rec'.tup.sched = st'.sched.inner.next R.c.r st'.nextSched q'.draw := by rw [hrec']; rfl
+    refine ⟨?_, ?_⟩
+    · intro hops
+      rw [hb, ← hin, hval hops, hnext]
+      simp [Inner.next, hr]
+    · intro hun
+      rw [hb, ← hin, hun]; rfl
+
 /-- on-error=abort: a failed request never yields a sample (`execute_single` raises instead) -/
 theorem abort_policy (o : Outcome) (ops : Nat) (unit : Str) (m : Meta)
     (h : executeSingle true o = .ret ops unit m) : m.success = true := by
@@ -284,5 +339,17 @@ example : (srun 2 [SEv.evalPut, .build, .call 0, .evalPut, .drain, .build, .call
       .evalPut, .build, .call 3, .drain] (SState.init Nat)).batches = [[0], [1, 2]] ∧
     (srun 2 [SEv.evalPut, .build, .call 0, .evalPut, .drain, .build, .call 1, .evalPut, .build, .call 2,
       .evalPut, .build, .call 3, .drain] (SState.init Nat)).dropped = [3] := by decide
+
+/-- 2 ops/s, one client, the runner reports 20 pages per request; the first response is a runner-reported failure (with
+    its weight): every request is due 0.5 s after its predecessor, from the very first response on -/
+def pagesReq (out : Outcome) : Req := { okReq (1 / 8) with out := out }
+def pages : Str := ['p', 'a', 'g', 'e', 's']
+def demoPages : Run :=
+  Run.ofInputs { demoCfg with clients := 1 } (fun _ => rfl) { demoTask with warmupIt := some 0, iters := some 4, clients := 1 }
+    (.int 2) .none 0 1 true 100
+    [pagesReq (.dict (some 20) (some pages) (some false) none none), pagesReq (.tuple 20 pages), pagesReq (.tuple 20 pages),
+     pagesReq (.tuple 20 pages)] (by decide +kernel)
+example : demoPages.f.out.recs.map (fun r => (r.tup.sched, r.sample.ops, r.sample.success)) =
+    [(0, 20, false), (1 / 2, 20, true), (1, 20, true), (3 / 2, 20, true)] := by decide +kernel
 
 end C04
